@@ -149,7 +149,8 @@ def run(chk):
     replay_mismatch = 0
     seam_bypassed = []
     for t in range(n_script):
-        n = int(rng.integers(2, 61)) if rng.random() < 0.9 or chk.tier == "quick" else int(rng.integers(61, 501))
+        r_n = rng.random()
+        n = int(rng.integers(2, 61)) if r_n < 0.9 else (int(rng.integers(101, 161)) if chk.tier == "quick" else int(rng.integers(61, 501)))
         a, b = ALPHAS[int(rng.integers(len(ALPHAS)))]
         alpha = a / b
         af = Fraction(alpha)
